@@ -1,10 +1,11 @@
 import AsyncsshModel.Model.Channel
 /-
-  The text layer of a channel with `encoding='utf-8'`, `errors='strict'` (the defaults):
-  `_deliver_data` (channel.py:379-386) hands every delivered chunk to ONE incremental decoder per channel
-  (`codecs.getincrementaldecoder(encoding)(errors)`, channel.py:176-190 — shared by stdout and stderr), and
-  `_flush_recv_buf` (344-350) calls `decoder.decode(b'', True)` once the buffer is empty after EOF / CLOSE.
-  A `UnicodeDecodeError` becomes a `ProtocolError`.
+  The text layer of a channel with `encoding='utf-8'`, `errors='strict'` (the defaults): ONE incremental UTF-8
+  decoder (`codecs.getincrementaldecoder(encoding)(errors)`) fed chunk by chunk, as `_deliver_data` feeds the
+  decoder of a data type; `decoder.decode(b'', True)` is the final check `_flush_recv_buf` makes once the buffer is
+  empty after EOF / CLOSE.  A `UnicodeDecodeError` becomes a `ProtocolError`.
+  Which decoder a chunk goes to — one per data type since repair 98283c0, one per channel (shared by stdout and
+  stderr) before — and when the decoders are reset is `Model/ChannelDecode.lean`.
 
   The decoder is modelled byte-exactly as the well-formedness automaton of Unicode Table 3-7 (what CPython's
   `unicode_decode_utf8` implements, including *when* an ill-formed sequence is reported: at the first byte that
